@@ -180,6 +180,8 @@ def gen_spec(rng):
         spec["attr"] = "__marker__"
     else:
         spec["detector"] = {"cls": rng.choice(["Base", "Mid", "Other"]), "fail": rng.choice([None, None, "TypeError", "ValueError"])}
+        if rng.random() < 0.15:
+            spec["detector"]["falsy"] = True
     return spec
 
 
@@ -344,6 +346,17 @@ class World:
                     faults.STATE.fired["detector_fail"] += 1
                     raise faults.EXC_CLASSES[failname]("detector fault")
                 return c is target
+            if d.get("falsy"):
+                # a detector that is a falsy callable object
+                fn_ = detector
+
+                class FalsyDetector:
+                    def __call__(self, c):
+                        return fn_(c)
+
+                    def __len__(self):
+                        return 0
+                detector = FalsyDetector()
             kw["detector"] = detector
         conv = self.make_conv(op["tag"], fail=op.get("conv_fail", False), falsy=op.get("falsy", False))
         reg = self.base if op.get("on_base") else self.reg
